@@ -5,3 +5,4 @@ import Iso8583.Props.C07
 import Iso8583.Props.C20
 import Iso8583.Props.C16
 import Iso8583.Props.C13
+import Iso8583.Props.C18
